@@ -8,14 +8,14 @@ import threading
 
 FAMILY = 'Push'
 DRIVER = 'push'
-HOOK_COMMITS = ['8304a52', '16e09a3']          # /repo: start gate, settable back-off tick, push restart/wipe/inspection
+HOOK_COMMITS = ['8304a52', '16e09a3', '243952d']          # /repo: start gate, settable back-off tick, push restart/wipe/inspection
 FIX_COMMITS = ['a7d6dd9', 'e949624']
 
 PROPS = {
     'C32': dict(
         text='TLC exhaustively checks a mechanism model of blockchain/push.go (sequence log with add/del records, stored '
              'subscriber record and last pushed sequence, task entry with running flag / back-off / notification channel, '
-             'task goroutines with separate spawn and start steps, registration / re-activation, deactivation after three '
+             'task goroutines with separate spawn and start steps, batches cut by count (10) or by cumulative size (records of 1 or 2 size units against a limit), registration / re-activation, deactivation after three '
              'failures, graceful restart, endpoint answering ok/fail) against Ordered (every batch received at the endpoint '
              'starts at the first sequence after the resume point: no acknowledged sequence again, none skipped), AckedFirst '
              '(stored last pushed sequence never beyond what was acknowledged) and OneTask; the as-found mechanisms (running '
@@ -30,7 +30,9 @@ PROPS = {
              'design). A subscriber that never acknowledged anything and supplied no start sequence has as resume point the '
              'latest sequence at the moment its (re)activated task first looks at the log (push.go: "start from the latest"). '
              'Bounds: <= 2 subscribers, log <= 6 records in TLC runs (<= 80 in recorded traces), <= 4 endpoint failures, '
-             '<= 4 registrations, 1 restart, reorganisation depth <= 2.',
+             '<= 4 registrations, 1 restart, reorganisation depth <= 2. The batch size limit of block/header subscribers is made '
+             'reachable by a verif hook (limit of a few KB against blocks padded to 4000/8000 bytes, headers of ~152 bytes); the '
+             'size limit of receipt batches (1 MB) is not reached.',
     ),
 }
 
@@ -104,6 +106,7 @@ def run(ctx):
                         'HTTP stack / LevelDB trusted', 'TLC bounds: <=2 subscribers, log<=6, <=4 failures, <=4 registrations, 1 restart']
     # 1. exhaustive: the repaired mechanism satisfies the property ...
     r = ctx.tlc_mc('Push_MC', 'Push_MCq.cfg' if q else 'Push_MCt.cfg', workers=4, timeout=14400, coverage=not q)
+    ctx.tlc_mc('Push_MC', 'Push_MCs.cfg', workers=4, timeout=14400)      # batch size limit, cut inside a batch
     if not q:
         # AddBlock / Reorg are the GenMode forms of AppendSeq + NotifySeq and cannot fire here
         zeros = [z for z in r.get('zero_actions', []) if not any(a in z for a in ('<AddBlock ', '<Reorg '))]
@@ -115,11 +118,13 @@ def run(ctx):
     orig_log = vlib.log
     vlib.log = lambda *a: orig_log(*[str(x).replace('VIOLATION', '(expected) refuted:') for x in a])
     try:
-        for cfg in ('Push_MCrace.cfg', 'Push_MCzero.cfg'):
+        for cfg, inv, note in (('Push_MCrace.cfg', 'Ordered', 'as-found mechanism, refutation expected (anti-vacuity of the invariants)'),
+                               ('Push_MCzero.cfg', 'Ordered', 'as-found mechanism, refutation expected (anti-vacuity of the invariants)'),
+                               ('Push_MCscut.cfg', 'NoSizeCut', 'reachability probe: a batch cut in the middle by the size limit exists in Push_MCs.cfg')):
             r = ctx.tlc_mc('Push_MC', cfg, workers=2, timeout=7200, expect_violation=True, count=False)
-            if r['violation'] != 'Ordered':
-                raise vlib.Broken('%s: the as-found mechanism is no longer refuted (violation=%s)' % (cfg, r['violation']))
-            ctx.mc_runs[-1]['note'] = 'as-found mechanism, refutation expected (anti-vacuity of the invariants)'
+            if r['violation'] != inv:
+                raise vlib.Broken('%s: expected refutation of %s did not happen (violation=%s)' % (cfg, inv, r['violation']))
+            ctx.mc_runs[-1]['note'] = note
     finally:
         vlib.log = orig_log
     ctx.extra['as_found_mechanisms_refuted'] = ['Push_MCrace.cfg', 'Push_MCzero.cfg']
@@ -129,6 +134,7 @@ def run(ctx):
     n1, n2 = (90, 50) if q else (700, 400)
     bs = ctx.tlc_sim('Push_MC', 'Push_Gen.cfg', num=n1, depth=45, keep_init=True, timeout=3600)
     bs += ctx.tlc_sim('Push_MC', 'Push_GenGate.cfg', num=n2, depth=45, keep_init=True, timeout=3600, seed=ctx.seed + 1000003)
+    bs += ctx.tlc_sim('Push_MC', 'Push_GenCut.cfg', num=60 if q else 400, depth=45, keep_init=True, timeout=3600, seed=ctx.seed + 3000003)
     if not q:
         bs += ctx.tlc_sim('Push_MC', 'Push_GenRcpt.cfg', num=n2, depth=45, keep_init=True, timeout=3600, seed=ctx.seed + 2000003)
         bs += ctx.tlc_sim('Push_MC', 'Push_Gen.cfg', num=n1, depth=60, keep_init=True, timeout=3600, seed=ctx.seed * 100 + 7)
